@@ -187,14 +187,20 @@ def drange(t0 = None, t1 = None, bump = None):
                     raise ValueError('cannot move forward from %s to %s using %s'%(t0, t1, bump))
                 while t<=t1:
                     res.append(t)
-                    t = dt_bump(t, bump)
+                    nxt = dt_bump(t, bump)
+                    if nxt <= t: ## parts of opposite sign may cancel later in the walk ('1m-28d' on reaching 1 February): the loop never ended
+                        raise ValueError('cannot move forward from %s to %s using %s'%(t, t1, bump))
+                    t = nxt
                 return res
             elif t1<t0: 
                 if dt_bump(t0, bump) >= t0:
                     raise ValueError('cannot move back from %s to %s using %s'%(t0, t1, bump))
                 while t>=t1:
                     res.append(t)
-                    t = dt_bump(t, bump)
+                    nxt = dt_bump(t, bump)
+                    if nxt >= t:
+                        raise ValueError('cannot move back from %s to %s using %s'%(t, t1, bump))
+                    t = nxt
                 return res
             else:
                 return [t0]
